@@ -162,6 +162,30 @@ impl World {
         self.inflight.push(InFlight { client, tag, slot, handle });
     }
 
+    /// After a request was issued: wait until it has either completed or reached a database
+    /// call. Extracting an uploaded file goes through tokio's blocking pool (real threads), so
+    /// the handler may not have got there within the bounded pumping; the simulator waits for
+    /// the observable event, never for a duration.
+    pub async fn settle_request(&mut self, client: usize) {
+        let t0 = std::time::Instant::now();
+        loop {
+            let Some(f) = self.inflight.iter().find(|f| f.client == client) else { return };
+            if f.slot.borrow().is_some() {
+                return;
+            }
+            let tag = f.tag.clone();
+            if mongodb::sim::pending().iter().any(|g| g.tag.as_deref() == Some(tag.as_str())) {
+                return;
+            }
+            if t0.elapsed() > Duration::from_secs(20) {
+                self.harness_error = Some(format!("request {tag} neither completed nor reached a database call"));
+                return;
+            }
+            std::thread::sleep(Duration::from_micros(50));
+            pump().await;
+        }
+    }
+
     pub fn take_completed(&mut self) -> Vec<(usize, String, Resp)> {
         let mut out = Vec::new();
         let mut i = 0;
@@ -453,7 +477,16 @@ pub fn req_json(method: &str, path: &str, cookie: &Option<String>, body: Option<
 pub fn req_add(cookie: &Option<String>, name: &str, code: &str, parsing: &str) -> actix_http::Request {
     let boundary = "----verifsimboundary7MA4YWxkTrZu0gW";
     let mut body = String::new();
+    // "<strategy>+file": the code is uploaded as a file part instead of the text field
+    let (parsing, as_file) = match parsing.strip_suffix("+file") {
+        Some(p) => (p, true),
+        None => (parsing, false),
+    };
     for (k, v) in [("name", name), ("code", code), ("parsing", parsing)] {
+        if k == "code" && as_file {
+            body.push_str(&format!("--{boundary}\r\nContent-Disposition: form-data; name=\"file\"; filename=\"problem.adf\"\r\nContent-Type: text/plain\r\n\r\n{v}\r\n"));
+            continue;
+        }
         body.push_str(&format!("--{boundary}\r\nContent-Disposition: form-data; name=\"{k}\"\r\n\r\n{v}\r\n"));
     }
     body.push_str(&format!("--{boundary}--\r\n"));
